@@ -71,6 +71,9 @@ func genH(t *rapid.T) (HCase, *env.Env) {
 		if len(ok) > 0 {
 			c.Periods = rapid.SampledFrom(ok).Draw(t, "pph")
 			c.Cfg.StartS, c.Cfg.HasStart = 0, false
+			if rapid.IntRange(0, 2).Draw(t, "number-template") == 0 {
+				c.Cfg.Type = "number" // plain $Number$ templates: the document changes (and publishTime moves) at period boundaries only
+			}
 			if min := 2*segMS/1000 + 1; c.Cfg.TsbdS < min {
 				c.Cfg.TsbdS, c.Cfg.HasTsbd = min, true
 			}
@@ -506,11 +509,30 @@ func genTree(t *rapid.T) TreeCase {
 		case "attr-add":
 			nw.attrs = append(nw.attrs, [2]string{"mediaPresentationDuration" + strconv.Itoa(e), "PT10S"})
 		case "attr-remove":
-			for i := range nw.attrs {
-				if nw.attrs[i][0] == "availabilityStartTime" {
-					nw.attrs = append(nw.attrs[:i], nw.attrs[i+1:]...)
-					break
+			// any attribute but the addressing / mandatory ones, of any element above the S level (also the one sorting last)
+			type cand struct {
+				n *tnode
+				i int
+			}
+			var cands []cand
+			var walkT func(n *tnode)
+			walkT = func(n *tnode) {
+				switch n.name {
+				case "MPD", "Period", "AdaptationSet", "Representation", "SegmentTemplate":
+					for i, a := range n.attrs {
+						if a[0] != "id" && a[0] != "xmlns" && a[0] != "publishTime" {
+							cands = append(cands, cand{n, i})
+						}
+					}
 				}
+				for _, k := range n.kids {
+					walkT(k)
+				}
+			}
+			walkT(nw)
+			if len(cands) > 0 {
+				c := cands[rapid.IntRange(0, len(cands)-1).Draw(t, "rmattr")]
+				c.n.attrs = append(c.n.attrs[:c.i:c.i], c.n.attrs[c.i+1:]...)
 			}
 		case "period-append":
 			last := k0
